@@ -262,3 +262,73 @@ Example C09_nonvacuous_kmers :
   NoDup (surv_kmers rpay 4 false ex_g (survivors rpay ex_g (Some [4; 6]%nat))).
 Proof. apply nodupb_sound. vm_compute. reflexivity. Qed.
 Print Assumptions C09_nonvacuous_kmers.
+
+(* ---- singleton_route at model level, FULL (composition with C01) ---------------------------------------------- *)
+(* The one-node-per-k-mer graph of a k-mer table T is T itself read as a graph (node sequence = key, same extension
+   byte, same payload).  "Well-formed" is spelled out: [tbl_ok] and [exts_sym] (C01's hypotheses on the table) and
+   [rvalid] of the singleton graph (C09's hypothesis; it contains "every extension leads to a present k-mer" - without
+   it the first step of compress_graph prunes dangling extensions that compress_kmers counts, and the two results
+   differ).  Then compress_graph and compress_kmers are the SAME run of AbstractWalk.compress: the static step
+   relations coincide, rnext (graph) = knext (table) for every node and side (C09_singleton_next), hence the vertex
+   lists of result node i and of output node i of compress_kmers are equal (C09_singleton_paths) and the two nodes
+   consist of the same k-mers (C09_singleton_route_nodes); in particular [same_partition], the Prop decided by
+   chk.c09.singleton_route (C09_singleton_route).  Neither C02_same_node_iff nor maximality is needed. *)
+From DBG Require Spec.CompressSpec Proofs.CompressRefine Proofs.SingletonRoute.
+
+Theorem C09_singleton_next : forall D join K stranded, (1 <= K)%nat -> forall T : Compress.table D,
+  CompressSpec.tbl_ok D K stranded T ->
+  forall i d, rnext D join K stranded T i d = CompressSpec.knext D join stranded T i d.
+Proof. exact SingletonRoute.rnext_knext. Qed.
+Print Assumptions C09_singleton_next.
+
+Theorem C09_singleton_paths : forall D reduce join K stranded, (1 <= K)%nat -> (forall a b, join a b = join b a) ->
+  forall T : Compress.table D,
+  CompressSpec.tbl_ok D K stranded T -> rvalid D K stranded T ->
+  forall out paths, compress_graph_paths D reduce join K stranded T None = Some (out, paths) ->
+  map (map fst) paths =
+  map (fun x => node_verts nat (fst (fst x)) (snd (fst x)) (snd x))
+      (CompressRefine.compress_struct D join stranded T (seq 0 (length T)) (seq 0 (length T))).
+Proof. exact SingletonRoute.singleton_paths. Qed.
+Print Assumptions C09_singleton_paths.
+
+Theorem C09_singleton_route_nodes : forall D reduce join K stranded, (1 <= K)%nat -> (forall a b, join a b = join b a) ->
+  forall T : Compress.table D,
+  CompressSpec.tbl_ok D K stranded T -> rvalid D K stranded T -> CompressSpec.exts_sym D stranded T ->
+  forall a paths b, compress_graph_paths D reduce join K stranded T None = Some (a, paths) ->
+  Compress.compress_kmers D reduce join stranded T = Some b ->
+  Forall2 (fun na nb => Permutation (node_kmers D K stranded na) (node_kmers D K stranded nb)) a b.
+Proof. exact SingletonRoute.singleton_route_nodes. Qed.
+Print Assumptions C09_singleton_route_nodes.
+
+Theorem C09_singleton_route : forall reduce join K stranded (T : Compress.table rpay) a b,
+  (1 <= K)%nat -> (forall x y, join x y = join y x) ->
+  CompressSpec.tbl_ok rpay K stranded T -> CompressSpec.exts_sym rpay stranded T -> rvalid rpay K stranded T ->
+  compress_graph rpay reduce join K stranded T None = Some a ->
+  Compress.compress_kmers rpay reduce join stranded T = Some b ->
+  same_partition K stranded a b.
+Proof. exact SingletonRoute.singleton_route_same_partition. Qed.
+Print Assumptions C09_singleton_route.
+
+(* non-vacuity of the singleton route: K = 4, unstranded, the canonical 4-mers of ACGTTGCAACTCCGA (two palindromes, a
+   hairpin) with extensions derived from membership, read as a table and as a one-k-mer-per-node graph: all three
+   hypotheses hold, and both routes produce five nodes *)
+From DBG Require Check.CompressHyp Proofs.CompressHypProofs.
+Definition C09_ex_keys : list dna :=
+  nodup (list_eq_dec N.eq_dec) (map canon (kmers 4 [0;1;2;3;3;2;1;0;0;1;3;1;1;2;0]%N)).
+Definition C09_ex_table : Compress.table rpay :=
+  map (fun p => (fst p, Compress.derive_exts false C09_ex_keys (fst p), (0%N, [N.of_nat (snd p)])))
+      (combine C09_ex_keys (seq 0 (length C09_ex_keys))).
+Example C09_nonvacuous_singleton :
+  CompressSpec.tbl_ok rpay 4 false C09_ex_table /\ CompressSpec.exts_sym rpay false C09_ex_table /\
+  rvalid rpay 4 false C09_ex_table /\
+  option_map (map fst) (option_map (map fst) (compress_graph rpay rpay_reduce (rpay_join 0) 4 false C09_ex_table None)) =
+    Some [[0;1;2;3]; [0;0;1;2]; [3;2;1;0]; [2;1;0;0;1]; [0;0;1;3;1;1;2;0]]%N /\
+  option_map (map fst) (option_map (map fst) (Compress.compress_kmers rpay rpay_reduce (rpay_join 0) false C09_ex_table)) =
+    Some [[0;1;2;3]; [0;0;1;2]; [3;2;1;0]; [2;1;0;0;1]; [0;0;1;3;1;1;2;0]]%N.
+Proof.
+  split; [apply CompressHypProofs.tbl_okb_sound; vm_compute; reflexivity|].
+  split; [apply CompressHypProofs.exts_symb_sound; vm_compute; reflexivity|].
+  split; [apply rvalidb_sound; vm_compute; reflexivity|].
+  split; vm_compute; reflexivity.
+Qed.
+Print Assumptions C09_nonvacuous_singleton.
